@@ -67,7 +67,8 @@ CLAIMED = {
          'args, every public attribute, traceback and message suffix are compared with the original.',
          BASE + 'Partial (thin model): class creation, C-level slots, with_traceback are CPython\'s; the model fixes only the lookup order; '
          'everything observable is checked on the real code.'),
- 'C18': ('Theorems singleton_stable / singleton_first_use / singletonUse_preserves / uses_return_cached (every history of uses from any '
+ 'C18': ('Theorems locked_constructs_at_most_once (the locked singleton_value at the granularity of its shared accesses: at most one '
+         'construction under every schedule of any number of threads, by an invariant over all reachable states) / singleton_none_is_cached / singleton_stable / singleton_first_use / singletonUse_preserves / uses_return_cached (every history of uses from any '
          'threads) / singleton_cleared / operative_updates_commute, plus kernel-checked witnesses unlocked_race_exists and '
          'sequential_constructs_once for the check-then-act without the lock; tied to gin.config by running 2-4 real threads whose '
          'accesses to the singleton table, the operative record and the locks go through instrumented objects with a scheduling point '
@@ -131,13 +132,15 @@ CLAIMED = {
          'permutation invariance is a Lean theorem under the hypothesis that distinct keys have distinct sort keys (true when components are '
          'identifiers: the tie-break is the key\'s own spelling) and is also checked by the two-order oracle; static registration only (import '
          'lines / dynamic registration are C19, not built); D24 is a recorded finding.'),
- 'C07': ('Theorems operative_param (exact per-parameter characterisation of what one call records) / operative_excludes_caller_supplied / '
+ 'C07': ('Theorems operative_suffices_to_replay (for any sequence of calls from an empty record with fixed bindings: in the configuration '
+         'holding exactly the final operative record, every accepted call is accepted again, Gin supplies it exactly the values it supplied the '
+         'first time and it records what it recorded; with replay_supplies_same / replay_records_same / runCalls_invariant) / operative_param (exact per-parameter characterisation of what one call records) / operative_excludes_caller_supplied / '
          'operative_only_supplied (binding, or configurable representable default) / call_records (entry update, frame for never-called '
          'configurables) / rejected_call_records_nothing hold for every signature, lists, store, scope and argument split; the mirror is '
          'tied to gin.config by comparing the parsed operative_config_str() after every call; the replay half (clear, parse the text, '
          'repeat the calls: same arguments, same text) is executed on the real code for every generated case with a fixed store.',
-         BASE + 'Partial: the replay statement is not a Lean theorem (it needs the serialiser and parser models of C06/C02); it is checked '
-         'by real replay. Calls failing on a missing REQUIRED are excluded from replay (DESIGN §7 D23). Values reference-free here.'),
+         BASE + 'Partial: the replay theorem is about the record as a store (reference-free values, every supplied value taken as representable); '
+         'that the text of the record parses back to that store is C06/C02 and is checked by real replay. Calls failing on a missing REQUIRED are excluded from replay (DESIGN §7 D23). Values reference-free here.'),
  'C08': ('Theorems inv_reachable / matching_spec / matching_nodup / getMatch_spec / getAll_spec / minimal_spec (the reported name is a '
          'non-empty suffix addressing exactly that entry, every shorter non-empty suffix addresses another entry) / minimal_resolves_back hold for every history of '
          'insertions, removals and clears and every query; the trie mirror is tied to gin/selector_map.py by running the same random '
